@@ -187,9 +187,11 @@ class HedGroup:
                 group_list.append((child, child._sorted(update_self)))
 
         # Sort sub-groups by their SORTED content, so that equal groups end up adjacent whatever the order
-        # of their members.
-        tag_list.sort(key=lambda x: str(x[0]))
-        group_list.sort(key=lambda x: (self._sorted_key(x[1]), str(x[0])))
+        # of their members.  The non-updating view is what duplicate detection compares (case-insensitively),
+        # so it is ordered on case-folded text; sort()/sorted() keep their established order.
+        fold = (lambda text: text) if update_self else str.casefold
+        tag_list.sort(key=lambda x: fold(str(x[0])))
+        group_list.sort(key=lambda x: (fold(self._sorted_key(x[1])), str(x[0])))
         output_list = tag_list + group_list
         if update_self:
             self.children = [x[0] for x in output_list]
